@@ -122,6 +122,62 @@ def _writedir_by_evaluation(ctx, rep, pb, wd) -> bool:
     return True
 
 
+
+def search_string_evaluation(ctx, rep, rule="R06n"):
+    """The search string a client types reaches the handler as typed, whichever protocol carried it: each URL-based protocol's
+    handle() is evaluated up to the handler look-up on requests that carry a search string, and `self.searchrequest` is read off.
+    (Gemini queries are plain percent-encoding - a `+` is a `+`; HTTP form fields are form-encoded - a `+` is a blank, `%2B` a `+`.)"""
+    from ..paths import Const, PathLimit, Walker
+
+    prog = ctx.prog
+    typed = ["c++", "a b", "100%", "x+y & z", "q"]
+    import urllib.parse as up
+
+    protos = [("protocols.gemini.GeminiProtocol", lambda q: {"self.request": Const("gemini://host.example/s?" + up.quote(q, safe="+&") + "\r\n")}),
+              ("protocols.http.HTTPProtocol", lambda q: (lambda t: {"self.requestparts": Const(["GET", t, "HTTP/1.0"]), "self.requestparts[1]": Const(t),
+                                                                   "self.requestparts[0]": Const("GET")})("/s?searchrequest=" + up.quote_plus(q)))]
+    for qual, mk in protos:
+        P = ctx.cls(qual)
+        h = prog.resolve_method(P, "handle") if P else None
+        if h is None:
+            continue
+        problems, n = [], 0
+        for q in typed:
+            facts = mk(q)
+
+            def rp(call, tgt):
+                return ["StopAtLookup"] if isinstance(call.func, ast.Attribute) and call.func.attr == "gethandler" else []
+
+            def cv(call, tgt, st):
+                if isinstance(call.func, ast.Attribute) and call.func.attr in ("headerslurp", "log"):
+                    return Const(None)
+                return None
+
+            w = Walker(prog, ctx.resolver, assumptions=facts, sticky=set(facts), raise_points=rp, call_value=cv, exact_loops=True, unroll=4, max_paths=4000,
+                       inline=lambda fn, t, d: d < 3 and (t.bound_cls is not None or (fn.cls is None and fn.module.name.startswith("pygopherd")
+                                                                                       and fn.module.name not in ("pygopherd.logger", "pygopherd.GopherExceptions"))
+                                                          or (fn.cls is not None and P is not None and prog.is_subclass(P, fn.cls))) and fn.name not in (
+                           "gethandler", "writedir", "filenotfound", "log", "renderobjinfo", "headerslurp", "write_status", "handlerwrite", "canhandlerequest",
+                           "getHandler"))
+            got = set()
+            try:
+                for p in w.run(h, P, facts=dict(facts)):
+                    if p.kind == "raise" and str(p.value) == "StopAtLookup":
+                        v = p.state.facts.get("self.searchrequest")
+                        got.add(v.value if v is not None and v.kind == "const" else "?")
+            except PathLimit:
+                got = {"?"}
+            if not got or "?" in got:
+                continue
+            n += 1
+            if got != {q}:
+                problems.append(f"the search string {q!r}, sent as {list(facts.values())[0].value if 'self.request' in facts else facts['self.requestparts[1]'].value!r}, "
+                                f"reaches the handler as {sorted(map(str, got))}")
+        rep.add(rule, f"{h.qualname}: a search string reaches the handler as typed [{n} of {len(typed)} evaluated]", not problems and n >= 3, ctx.where(h),
+                "; ".join(problems[:2]) if problems else ("" if n >= 3 else "the walker could not follow handle() up to the look-up"),
+                key=f"{rule}|{qual}", nontrivial=n > 0)
+
+
 def check(ctx, rep):
     prog = ctx.prog
     eff = Effects(prog, ctx.resolver)
@@ -183,6 +239,9 @@ def check(ctx, rep):
                         key=f"R06m|{f_.qualname}|{c_.func.attr}")
     if not n_body:
         rep.fail("R06m", "request body reads", detail="no protocol reads a request body")
+    rep.rule("R06n", "the search string reaches the handler as the client typed it, whichever protocol carried it: Gemini (plain percent-encoding, "
+             "`+` literal) and HTTP (form encoding) handle() evaluated on 5 strings up to the handler look-up", floor=2)
+    search_string_evaluation(ctx, rep, "R06n")
     rep.rule("R06d", "menu MIME type mapped to the protocol's listing type; adjust function total", floor=4)
     pb = ctx.cls("protocols.base.BaseGopherProtocol")
     if pb is None:
